@@ -173,6 +173,15 @@ func (w *world) buildGenesis(nVals int) {
 	w.genesis.Validators = append(w.genesis.Validators, &fsm.Validator{Address: d.addr, PublicKey: d.key.PublicKey().Bytes(), StakedAmount: 700_000,
 		Committees: []uint64{1, 2}, Output: d.addr, Delegate: true, Compound: true})
 	w.genesis.Accounts = append(w.genesis.Accounts, &fsm.Account{Address: d.addr, Amount: 5_000_000})
+	if c.Prop == "C13" {
+		// more delegates than some delegate caps allow
+		for i := 1; i <= 2; i++ {
+			dd := addActor("bls", fmt.Sprintf("delegate%d", i), false)
+			w.genesis.Validators = append(w.genesis.Validators, &fsm.Validator{Address: dd.addr, PublicKey: dd.key.PublicKey().Bytes(), StakedAmount: uint64(300_000 * i),
+				Committees: []uint64{1, 2}, Output: dd.addr, Delegate: true, Compound: i == 1})
+			w.genesis.Accounts = append(w.genesis.Accounts, &fsm.Account{Address: dd.addr, Amount: 2_000_000})
+		}
+	}
 	for i, kind := range []string{"ed25519", "secp256k1", "ethsecp", "ed25519", "ethsecp"} {
 		a := addActor(kind, fmt.Sprintf("client%d", i), false)
 		amt := []uint64{30_000_000, 0, 1, 25_000_000, 100_000}[(i+t.Intn(5))%5]
